@@ -291,6 +291,11 @@ pub fn run(run: &Run) {
         run.nontrivial(64);
         // fixed tuples with n != m for every kernel and every argument kind
         matrix_suite(run, k, &[-2.0, 0.5, 3.0], &[0.0, 1.0], &[0, 1, 2, 3]);
+        // the same pair with the arguments exchanged, right after (and back)
+        matrix_suite(run, k, &[0.0, 1.0], &[-2.0, 0.5, 3.0], &[3, 2, 1, 0]);
+        matrix_suite(run, k, &[-2.0, 0.5, 3.0], &[0.0, 1.0], &[2]);
+        matrix_suite(run, k, &[1.0, 4.0, -3.0], &[0.5, 2.0, 7.0], &[0, 1]);
+        matrix_suite(run, k, &[0.5, 2.0, 7.0], &[1.0, 4.0, -3.0], &[0, 1]);
         matrix_suite(run, k, &[1.0], &[-1.0, 0.0, 0.5, 1e3], &[0, 1, 2, 3]);
         matrix_suite(run, k, &[-1e3, 1e3, 0.5, 0.5, 3.0], &[3.0, -1e3], &[1, 3]);
         // nearly coincident points (a few ulps apart): the ‖x‖²+‖y‖²−2xy form cancels to ±rounding there
@@ -324,6 +329,9 @@ pub fn run(run: &Run) {
                     let y: Vec<f64> = w[nx..].iter().map(|&i| PTS[i]).collect();
                     let kinds: &[usize] = if nx + ny <= 3 { &[0, 1, 2, 3] } else { &[1, 3] };
                     matrix_suite(run, k, &x, &y, kinds);
+                    if nx >= 2 && ny >= 2 {
+                        matrix_suite(run, k, &y, &x, &kinds[..1]);
+                    }
                     run.nontrivial(1);
                 });
             }
